@@ -48,9 +48,8 @@ C_QAbort    == IsEv("QAbort") /\ QAbort
 C_QAbortRet == IsEv("QAbortRet") /\ QAbortRet
 C_TStart    == IsEv("TStart") /\ TStart(Ev.res)
 C_TAddRcpt  == IsEv("TAddRcpt") /\ pc = "rcpt" /\ idx <= Len(to) /\ to[idx] = Ev.r /\ TAddRcpt(Ev.res)
-\* a message that was never acknowledged may come back damaged (its header/body were not
-\* known to be durable when .meta was renamed into place): allowed by the design, no obligation
-Intact      == Ev.intact \/ ~obs.acked
+\* the design hands a damaged message only under a deviation (MayBeDamaged)
+Intact      == Ev.intact \/ MayBeDamaged
 C_TBody     == IsEv("TBody") /\ Intact /\ TBody(Ev.res)
 C_TBodyNA   == IsEv("TBodyNA") /\ Intact /\ DOMAIN Ev.st = ToSet(accepted) /\ TBodyNA(Ev.st)
 C_TCommit   == IsEv("TCommit") /\ TCommit(Ev.res)
